@@ -86,6 +86,9 @@ func (e *Eval) evalLoopBest(fr *frame, h *ssa.BasicBlock, body map[*ssa.BasicBlo
 	if len(e.activeLoops) > 0 {
 		return false // inside a summarised loop: values are parametric in its iteration number
 	}
+	if e.scanLinesLoop(fr, h, body, in, done) {
+		return true
+	}
 	if !fr.containsInner[h] {
 		snap := e.snapshotLoop(fr, done)
 		clean := e.evalLoop(fr, h, body, in, done)
